@@ -5,5 +5,6 @@ CONSTANTS
   MethodPathBug = TRUE
   EmitMod = 1
   EmitPick = 0
+  MultiMod = 1
 INVARIANTS ToolMatchesModuloKnown
 CHECK_DEADLOCK FALSE
